@@ -301,6 +301,8 @@ func TestVerifC05(t *testing.T) {
 				})
 				r.EvalN("concurrent-construction:"+pn, hk.N(4000, 40000))
 			}
+			// object lifetimes: AEADs derived from a Block become garbage and are finalized while the Block lives on
+			lifetimeHistories(r, rng, pn, hk.N(6, 40), false, true, false)
 			// key lengths other than 16 must be rejected
 			for l := 0; l <= 40; l++ {
 				if l == 16 {
